@@ -64,6 +64,12 @@ class GetItem(FnContract):
         else:
             ex.prove('C10:__getitem__:raises-KeyError-iff-unbound', ['C10', 'C16', 'C18', 'C07'],
                      z3.And(outcome[1] == L.EXC_ID['KeyError'], z3.Not(g['EXISTS'])))
+        for e in ex.events:
+            if e[0] == 'dict_subscript':
+                # a scope may be a host mapping with a __missing__ hook (defaultdict): `scope[item]` without the
+                # membership test would invent bindings that shadow every outer scope and the builtins
+                ex.prove('C10:__getitem__:a-scope-is-subscripted-only-where-it-binds-the-name', ['C10', 'C13', 'C19', 'C07', 'C02'],
+                         bool(e[4]), soft=True)
         frame_check(ex, ctx, [], '__getitem__', ['C10'])
 
 
@@ -207,7 +213,8 @@ def pushpop_task(engine, name, contract):
         ctx = {'env': env, 'scopes': s, 'n': n}
         if name == 'push_scope':
             scope = z3.Const('arg_scope', Val)
-            ex.assume(L.is_Dict(scope))
+            # weakest precondition of the call sites: a dict, or a host mapping object that is not a dict
+            ex.assume(z3.Or(L.is_Dict(scope), L.is_Opaque(scope)))
             ex.known(scope)
             env.vars['scope'] = scope
             ctx['scope'] = scope
